@@ -67,8 +67,12 @@ def make_server():
         def connectionAuthenticated(self):
             self.auth_calls += 1
 
+        hook = None
+
         def methodCallReceived(self, m):
             self.got.append(m)
+            if self.hook is not None:
+                self.hook(self)
         methodReturnReceived = errorReceived = signalReceived = \
             methodCallReceived
 
@@ -97,8 +101,12 @@ def make_client(unix):
         def connectionAuthenticated(self):
             self.auth_calls += 1
 
+        hook = None
+
         def methodCallReceived(self, m):
             self.got.append(m)
+            if self.hook is not None:
+                self.hook(self)
         methodReturnReceived = errorReceived = signalReceived = \
             methodCallReceived
 
@@ -113,7 +121,7 @@ CLIENT_HS = b'OK ' + fakes.GUID + b'\r\n'
 CLIENT_HS_UNIX = CLIENT_HS + b'AGREE_UNIX_FD\r\n'
 
 
-def run_schedule(role, descs, cuts, prefix_joined):
+def run_schedule(role, descs, cuts, prefix_joined, reenter=None):
     """Delivers handshake+messages cut at `cuts` (positions in the joined
     stream when prefix_joined, otherwise the handshake is delivered first on
     its own and cuts refer to the message stream).  Returns violations."""
@@ -138,10 +146,20 @@ def run_schedule(role, descs, cuts, prefix_joined):
     else:
         p.dataReceived(hs)
         data = stream
+    pending = [ch for ch in space.chunks(data, cuts) if ch]
+    if reenter is not None:
+        # the handler of message number `reenter` reads the rest of the
+        # stream itself (what happens over an in-memory transport when a
+        # handler talks to the peer): the reads nest instead of following
+        # one another
+        def hook(proto):
+            if len(proto.got) == reenter + 1:
+                while pending:
+                    proto.dataReceived(pending.pop(0))
+        p.hook = hook
     try:
-        for ch in space.chunks(data, cuts):
-            if ch:
-                p.dataReceived(ch)
+        while pending:
+            p.dataReceived(pending.pop(0))
     except Exception as e:
         return [('exception-%s' % type(e).__name__,
                  'dataReceived raised %r' % (e,))], p
@@ -273,6 +291,53 @@ def _task_joined(task):
     res.count('evaluations', n_exec)
     res.count('traces', n_exec)
     res.count('nontrivial', n_exec)
+    return res
+
+
+def _task_reentrant(task):
+    """nested reads: every pair / triple of messages, every single cut, and
+    for each message of the stream the schedule in which its handler reads
+    all that is left"""
+    quick, part, nparts = task
+    res = core.Result()
+    P = pool()
+    n = len(P)
+    streams = list(itertools.product(range(n), repeat=2))
+    streams += [t for t in itertools.product(range(n), repeat=3)
+                if (t[0] * 7 + t[1] * 3 + t[2]) % (10 if quick else 2) == 0]
+    for si, idxs in enumerate(streams):
+        if si % nparts != part:
+            continue
+        descs = [P[i] for i in idxs]
+        raws = [encode(d, 100 + i)[0] for i, d in enumerate(descs)]
+        total = sum(len(r) for r in raws)
+        bounds = _boundaries(raws)
+        res.count('states')
+        for role in (('server',) if quick else ('server', 'client-unix')):
+            for j in range(len(idxs) - 1):
+                # (cuts behind the end of message j: its handler runs
+                # while later bytes are still to come)
+                cutsets = [()] + [(c,) for c in range(1, total)
+                                  if c > bounds[j + 1]]
+                for cuts in cutsets:
+                    found, _ = run_schedule(role, descs, cuts, False,
+                                            reenter=j)
+                    res.count('transitions')
+                    res.count('evaluations')
+                    res.count('traces')
+                    res.count('nontrivial')
+                    res.outcome((role, len(idxs), j, len(cuts),
+                                 tuple(t for t, _ in found)))
+                    for tag, what in found:
+                        res.violation(
+                            '%s/%s/reentrant/%s' % (PROP, role, tag),
+                            '%s, messages %r, cuts %r, the handler of '
+                            'message %d reads the rest itself: %s'
+                            % (role, list(idxs), list(cuts), j, what),
+                            {'role': role, 'msgs': list(idxs),
+                             'cuts': list(cuts), 'joined': False,
+                             'reenter': j},
+                            size=len(idxs) * 10 + len(cuts))
     return res
 
 
@@ -423,6 +488,9 @@ def run(ctx):
         'the sent sequence (type, serial, flags, header fields, body). Two '
         'connections in one process: every pair of pool messages, each cut '
         'once, every interleaving of the reads, handshakes interleaved too. '
+        'Nested reads: for every pair (and a slice of the triples) of '
+        'messages and every single cut behind message j, the handler of '
+        'message j reads the rest of the stream itself. '
         'state = stream, transition = one schedule executed on a fresh real '
         'protocol' % ('a tenth' if q else 'all', len(pool()),
                       'near message boundaries / inside fixed headers'
@@ -437,6 +505,7 @@ def run(ctx):
     ctx.map(_task_joined, [(q, r) for r in ('server', 'client',
                                             'client-unix')])
     ctx.map(_task_two_connections, [(q, i, n) for i in range(n)])
+    ctx.map(_task_reentrant, [(q, i, n) for i in range(n)])
     co = [(3000, False), (3000, True), (1200, False)]
     if not q:
         co += [(20000, False), (20000, True)]
@@ -453,5 +522,5 @@ def replay(data):
     P = pool()
     descs = [P[i] for i in data['msgs']]
     found, _ = run_schedule(data['role'], descs, tuple(data['cuts']),
-                            data['joined'])
+                            data['joined'], reenter=data.get('reenter'))
     return [('%s/%s/%s' % (PROP, data['role'], t), w) for t, w in found]
